@@ -109,6 +109,29 @@ def run : Runner
         else (if Bytes.ofTok reenc == some s then "ok" else "violated:canonical-legacy")
       | _ => "ok"
     pure { model := decObs (DecodeAddress X s net), prop }
+  -- conv <kind> <net> <hash> <target net>: cash -> slp -> cash conversions and their string forms
+  | "conv", [_, kind, net, payload, tnet], _ => do
+    let net ← nets[(← nat? net)]?
+    let tnet ← nets[(← nat? tnet)]?
+    let p ← bytes? payload
+    let c ← construct kind net p
+    match c with
+    | .error _ => pure { model := "ctorerr" }
+    | .ok a =>
+      let tok : Except Err Addr → String
+        | .ok x => s!"{kindTok x},{Bytes.tok (EncodeAddress X x)},{netBits x}"
+        | .error e => "err," ++ errTok e
+      let s1 := ConvertCashToSlp a tnet
+      let s2 := match s1 with | .ok x => ConvertSlpToCash x tnet | .error e => .error e
+      pure { model := s!"{tok s1} {tok s2} {tok (ConvertSlpToCash a tnet)}" }
+  | "pk2pkh", [_, net, ser], _ => do
+    let net ← nets[(← nat? net)]?
+    let ser ← bytes? ser
+    match newPubKey X ser net with
+    | .error _ => pure { model := "ctorerr" }
+    | .ok a => pure { model := match AddressPubKeyHash X a with
+        | some h => s!"{Bytes.tok (ScriptAddress X h)},{Bytes.tok (EncodeAddress X h)},{netBits h}"
+        | none => "none" }
   | "conc", _, impl =>
     -- address construction/encoding are functions of their arguments: concurrent use must agree with sequential use
     pure { model := "ok", prop := if impl == "ok" then "ok" else "violated:results depend on concurrent use " ++ impl }
